@@ -306,17 +306,14 @@ class GeneralDataType(AbstractDataType):
         self.codes = {code: idx for idx, code in enumerate(codes)}
         self._encoding = self.codes.copy()
         self.ambiguities = ambiguities
-        for ambiguity in ambiguities.keys():
-            self.codes[ambiguity] = np.array(
-                [self.codes[s] for s in ambiguities[ambiguity]]
-            )
-
-            if (
-                not isinstance(ambiguities[ambiguity], list)
-                or len(ambiguities[ambiguity]) == 1
-            ):
-                # this is an alias for example {'U': 'T}
-                self._encoding[ambiguity] = self.codes[ambiguities[ambiguity]]
+        for ambiguity, states in ambiguities.items():
+            # an alias, for example {'U': 'T'} or {'U': ['T']}, names a single state
+            alias = not isinstance(states, list) or len(states) == 1
+            if not isinstance(states, list):
+                states = [states]
+            self.codes[ambiguity] = np.array([self.codes[s] for s in states])
+            if alias:
+                self._encoding[ambiguity] = self.codes[states[0]]
 
     def encoding(self, string: str) -> int:
         # a state written with several characters arrives split into its characters
